@@ -73,6 +73,7 @@ def big_index_events(rec, iindex, tier, seed):
         dense[1, ncols - 1] = 1
         dense[2, 256] = 2
         dense[2, 255] = 1
+        dense[2, 0] = 1            # a column number that wraps to 0 would put row 2 under two values of column 0
         wide = canonical(iindex, dense, 0)
         rec.indx_roundtrip(wide)
     return {"sizes": sizes, "constants": consts}
